@@ -445,6 +445,54 @@ def after_error_cells(tier):
                 yield {"scorer": scorer, "route": route, "n": n, "p": 2}
 
 
+def refit_failed_cells(tier):
+    for name in ("L2Cost(fixed)", "GaussianVarCost(fixed)", "GaussianCovCost(fixed)", "Saving(L2Cost)", "LocalAnomalyScore(L2Cost)"):
+        for n_old, n_new in ((6, 12), (12, 6), (8, 8)):
+            yield {"scorer": name, "n_old": n_old, "n_new": n_new}
+
+
+def check_refit_failed(case):
+    """A re-fit that raises (fixed parameter of the wrong length for the new data; for scorers without such a parameter, data
+    with a missing value) must not leave a scorer that checks cuts against one data set and scores another."""
+    from skchange.anomaly_scores import LocalAnomalyScore, Saving
+    from skchange.costs import GaussianCovCost, GaussianVarCost, L2Cost
+
+    name, n_old, n_new = case["scorer"], case["n_old"], case["n_new"]
+    old = fixed_data(n_old, 2)
+    make = {"L2Cost(fixed)": lambda: L2Cost(param=np.zeros(2)), "GaussianVarCost(fixed)": lambda: GaussianVarCost(param=(np.zeros(2), np.ones(2))),
+            "GaussianCovCost(fixed)": lambda: GaussianCovCost(param=(np.zeros(2), np.eye(2))),
+            "Saving(L2Cost)": lambda: Saving(L2Cost(param=np.zeros(2))), "LocalAnomalyScore(L2Cost)": lambda: LocalAnomalyScore(L2Cost(param=np.zeros(2)))}[name]
+    scorer = make().fit(old)
+    k = scorer.expected_cut_entries
+    try:
+        scorer.fit(fixed_data(n_new, 3))  # three columns: the fixed parameter of length 2 no longer fits
+        failed = False
+    except ValueError:
+        failed = True
+    if not failed:
+        return {"nontrivial": False, "classes": ["refit_did_not_fail"]}
+    fresh = make().fit(old)
+    n_checked = 0
+    for cut in itertools.product(sorted({0, 1, 3, n_old - 1, n_old, n_old + 1, n_new - 1, n_new, n_new + 2}), repeat=k):
+        arr = np.asarray([cut], dtype=np.int64)
+        outcome, out, err = evaluate_outcome(scorer, arr)
+        ref_outcome, ref_out, _ = evaluate_outcome(fresh, arr)
+        n_checked += 1
+        if ref_outcome != "value":
+            if outcome != "ValueError":
+                raise Violation(f"after a re-fit that raised, a cut that is invalid for the data of the last successful fit gave {outcome} "
+                                "instead of ValueError", scorer=name, cut=list(cut), rows_last_successful_fit=n_old, rows_rejected_fit=n_new,
+                                value=np.asarray(out).tolist() if outcome == "value" else None)
+        elif outcome == "value":
+            if not np.allclose(np.asarray(out), np.asarray(ref_out), rtol=1e-9, atol=1e-9):
+                raise Violation("after a re-fit that raised, a valid cut is scored differently from a scorer fitted on the same data",
+                                scorer=name, cut=list(cut), got=np.asarray(out).tolist(), expected=np.asarray(ref_out).tolist())
+        elif outcome != "ValueError":
+            raise Violation(f"after a re-fit that raised, a valid cut gave {outcome} (ValueError - not fitted - or the value expected)",
+                            scorer=name, cut=list(cut))
+    return {"nontrivial": True, "weight": n_checked, "classes": [f"scorer={name}"]}
+
+
 def check_after_error(case):
     from skchange.anomaly_detectors import CAPA, CircularBinarySegmentation
     from skchange.change_detectors import PELT, MovingWindow, SeededBinarySegmentation
@@ -521,6 +569,11 @@ FACETS = [
                 "object - optionally refitted on healthy data, then 7^k cuts around 0..n: invalid cuts must still raise ValueError, valid cuts on "
                 "healthy data must be scored by the definition; non-trivial = the earlier call did raise the documented error"),
           shards_quick=8, shards_thorough=8),
+    Facet(name="after_a_failed_refit", kind="enumerate", enumerate=refit_failed_cells, check=check_refit_failed, exhaustive=True,
+          rule=("five scorers with a fixed parameter for two columns fitted on 6-12 rows, re-fitted on three-column data of another length (raises ValueError), "
+                "then 9^k cuts around both lengths: cuts that are invalid for the data of the last successful fit must raise ValueError (a not-fitted "
+                "error counts), valid ones raise it too or are scored as by a fresh scorer on those data; every cell non-trivial"),
+          shards_quick=5, shards_thorough=5),
     Facet(name="integer_box", kind="enumerate", enumerate=box_cases, check=check_box, exhaustive=True,
           rule=("every integer tuple of [-2,n+2]^k (k=2,3,4) for n in {4,5,6} (thorough: up to 8 for k<=3), p in {1,2}, 18 scorers (17 built-in configurations and a user-defined local score with its own _check_cuts); "
                 "invalid => ValueError, valid => accepted and equal to the definitional value, the same tuple as uint64/uint8/int32 must behave identically; non-trivial = tuples that "
